@@ -92,8 +92,52 @@ func VerifC19Middleware() {
 		opts = append(opts, WithBlockFallback(nil)) // an explicitly nil fallback counts as not configured
 	}
 	mw := SentinelMiddleware(opts...)
+	verifLocals()
 	rt.HookCall("(*github.com/gofiber/fiber/v2.Ctx).Next", func() { verifHandlerMode(o, mode) })
 	c := &fiber.Ctx{}
 	panicked := !verifNoPanic(func() { mw(c) })
 	verifEnd(blocked, mode, o, fallbackUsed, fallbackSet, panicked, false)
+}
+
+// verifLocals: the per-request store of fiber.Ctx (Locals), modelled as a map: a value set under a key
+// is what a later read of that key returns.
+func verifLocals() {
+	store := map[interface{}]interface{}{}
+	rt.RedirectCall("(*github.com/gofiber/fiber/v2.Ctx).Locals", func(c *fiber.Ctx, key interface{}, value ...interface{}) interface{} {
+		if len(value) == 0 {
+			return store[key]
+		}
+		store[key] = value[0]
+		return value[0]
+	})
+}
+
+// VerifC19Nested: one request passes through two instances of the middleware (app-wide and group-level,
+// different resources): each instance asks for one entry and exits exactly its own, on every path.
+func VerifC19Nested() {
+	rt.SetFlag("entryEnv", 1)
+	mode := rt.Choice(3)
+	if mode == 1 {
+		mode = 0
+	}
+	o := &verifOutcome{}
+	verifLocals()
+	outer := SentinelMiddleware(WithResourceExtractor(func(ctx *fiber.Ctx) string { return "outer" }))
+	inner := SentinelMiddleware(WithResourceExtractor(func(ctx *fiber.Ctx) string { return "inner" }))
+	c := &fiber.Ctx{}
+	depth := 0
+	rt.HookCall("(*github.com/gofiber/fiber/v2.Ctx).Next", func() {
+		depth++
+		if depth == 1 {
+			inner(c)
+		} else {
+			verifHandlerMode(o, mode)
+		}
+	})
+	panicked := !verifNoPanic(func() { outer(c) })
+	rt.Reach("c19.returned")
+	rt.Assert(rt.GetFlag("entries") == 2, "each middleware instance asks Sentinel for exactly one entry")
+	rt.Assert(o.calls == 1, "admitted: the handler runs exactly once")
+	rt.Assert(rt.GetFlag("exitedEntries") == 2 && rt.GetFlag("exits") == 2, "admitted: each of the two entries is exited, exactly once, on every path (handler panic included)")
+	rt.Assert(panicked == (mode == 2), "a handler panic propagates to the framework, nothing else panics")
 }
